@@ -31,7 +31,7 @@ CHECK_DEADLOCK FALSE
 TRACE_CFG = 'CONSTANTS Dev = {}\nINIT TInit\nNEXT TNext\nCHECK_DEADLOCK FALSE\n'
 EX_BOUNDS = {'quick': [dict(N=4, MaxCons=3, MaxChain=2)], 'thorough': [dict(N=5, MaxCons=3, MaxChain=2)]}
 BIN_BOUNDS = {'quick': [dict(R=4, V=5, Same='FALSE'), dict(R=4, V=4, Same='TRUE')],
-              'thorough': [dict(R=5, V=7, Same='FALSE'), dict(R=4, V=6, Same='TRUE')]}
+              'thorough': [dict(R=5, V=6, Same='FALSE'), dict(R=4, V=5, Same='TRUE')]}
 MC_MODES = ['det-none', 'det-optimal', 'mk-none-1-2', 'mk-optimal-1-1', 'mk-none-0-1', 'mk-none-1-2-nf']
 ALL_MODES = list(fg.MODES)
 
